@@ -162,9 +162,69 @@ def run_opt_case(body, stats, case):
         env.close()
 
 
+_PROBED = False
+
+
+def fresh_process_probe(stats):
+    """Run once per worker process, before anything else was compiled there: a fixed set of SQL relations (subqueries,
+    joins, zero-column subqueries, doomed and identity operands, unions) is compiled, then compiled again in the same
+    order; compiling one relation must not change the SQL of another (state kept between compilations)."""
+    from vf.core.matrix import A, B, C, D, UNIVERSE
+    from vf.core.prog import build_all as _build
+
+    rows0 = ((2, 1, 0), (0, 2, 1), (1, 0, 2), (2, 0, 1), (0, 1, 2))
+    leaves = (
+        ("L0", (A, B, C), rows0, 0, "data", (0, None), "plain"),
+        ("L2", (A, D), ((0, 7), (1, 8), (2, 9), (2, 6)), 0, "data", (0, None), "plain"),
+    )
+    R = lambda t: ("ref", t)  # noqa: E731
+    l0, l2 = ("leaf", 0), ("leaf", 1)
+    sub = ("sel", ("dedup", ("sel", l0, ("ge", R(A), ("lit", 1)))), ("ge", R(B), ("lit", 0)))
+    progs = [
+        sub,
+        ("join", l0, l2, None),
+        ("sel", ("slice", ("sort", l0, ((R(A), True), (R(B), True), (R(C), True))), 0, 3), ("ge", R(A), ("lit", 0))),
+        ("chain", sub, ("sel", l0, ("lt", R(A), ("lit", 1)))),
+        ("join", l0, ("dedup", ("proj", l2, ())), None),
+        ("dedup", ("proj", l0, ())),
+        ("dedup", ("chain", ("proj", l0, ()), ("proj", l0, ()))),
+        ("join", sub, ("slice", l2, 0, 0), None),
+    ]
+    env = Env(leaves)
+    try:
+        rels = []
+        for p in progs:
+            try:
+                rels.append((p, _build(p, env)[id(p)]))
+            except Exception:
+                continue
+        first = {}
+        for rnd in range(2):
+            for p, rel in rels:
+                try:
+                    text = sql_text(env.sql.to_executable(rel))
+                except Exception:
+                    continue
+                if rnd == 0:
+                    first[id(p)] = text
+                elif first.get(id(p), text) != text:
+                    raise Violation(
+                        "compile-not-repeatable",
+                        f"{fmt(p, leaves)} compiles to different SQL after other relations were compiled in between:\n{first[id(p)][:400]}\n{text[:400]}",
+                        nondeterministic=True,
+                    )
+        stats.c["fresh-process-probes"] += 1
+    finally:
+        env.close()
+
+
 def run_case(case, stats):
     from lsst.daf.relation import ColumnError, Diagnostics, EngineError, sql
 
+    global _PROBED
+    if not _PROBED:
+        _PROBED = True
+        fresh_process_probe(stats)
     if case[0] == "opt":
         return run_opt_case(case[1], stats, case)
     universe, leaves, prog, steps = case
@@ -223,6 +283,7 @@ def run_case(case, stats):
                 snaps[id(rel)] = snapshot(rel)
 
         nsteps = 0
+        first_sql = {}
         for kind, arg in steps:
             if kind == "build":
                 if pos >= len(order):
@@ -261,6 +322,12 @@ def run_case(case, stats):
                         b = sql_text(rel.engine.to_executable(rel))
                         if a != b:
                             raise Violation("compile-not-repeatable", f"two compilations of {str(rel)[:200]} differ:\n{a[:300]}\n{b[:300]}")
+                        # ... and the same SQL as the first time this relation was compiled, whatever happened in between
+                        if first_sql.setdefault(id(rel), (a, rel))[0] != a:
+                            raise Violation(
+                                "compile-not-repeatable",
+                                f"{str(rel)[:200]} compiles to different SQL than earlier in this history:\n{first_sql[id(rel)][0][:400]}\n{a[:400]}",
+                            )
                         evaluated = True
                     elif kind == "execute":
                         if is_sql:
@@ -350,6 +417,16 @@ def run_case(case, stats):
             nsteps += 1
             stats.c[f"step:{kind}"] += 1
             check_all(label)
+        for _, (text0, rel0) in list(first_sql.items()):
+            try:
+                again = sql_text(rel0.engine.to_executable(rel0))
+            except Exception:
+                continue
+            if again != text0:
+                raise Violation(
+                    "compile-not-repeatable",
+                    f"{str(rel0)[:200]} compiles to different SQL at the end of the history than the first time:\n{text0[:400]}\n{again[:400]}",
+                )
         if nsteps >= 3 and reinspected_after_eval:
             stats.mark_nontrivial(codec.digest(case), lambda: describe(case), cls="+".join(sorted({k for k, _ in steps})))
     finally:
